@@ -163,3 +163,7 @@ Example ext_reverse_g1 : xstops (fst (collector_run g1 x1 o1 nofail)) = rev (xst
 Proof. vm_compute. reflexivity. Qed.
 Example shared_started_hyp : In (CStart 3) (log g1 x1 o1 nofail) /\ key_of [(2, 7); (3, 7)] 3 = Some 7.
 Proof. vm_compute. tauto. Qed.
+
+(* service::extensions = [2; 0; 2; 1; 0]: the extension set is [2; 1; 0] (each once) *)
+Example extensions_new_example : extensions_new [2; 0; 2; 1; 0] = [2; 1; 0].
+Proof. vm_compute. reflexivity. Qed.
